@@ -869,7 +869,7 @@ def record(rng, nhosts=3, max_events=14, max_retries=3, max_epoch=2, p_bad=0.25,
                         if d in ("RETRY", "NEXT") and f._final_exception is None:
                             # the retry task is submitted before self._errors[host] is stored: let 0..n queued retry
                             # tasks run at that point (executor thread), then the callback ends (StoreErr)
-                            n = rng.choice((0, 0, 1, 1, 2))
+                            n = rng.choice((0, 0, 1, 1, 2)) if h.ids != "one" else 0
                             n = min(n, len(h._retry_tasks()) + 1)
                             h.act_AnsErr(dict(ev, _interleave=n))
                             events.append(ev)
